@@ -31,48 +31,52 @@ def findBucket (time d : Nat) : Nat × Nat :=
   else if duration < span 4 then (3, (d >>> shift 3) % buckets 3)
   else (4, 0)
 
+/-- a scheduled timer event: the node, its deadline, and the time from which it counts as scheduled (`max deadline (wheel time
+    at Add)`: a node added with a deadline already behind the wheel's clock goes to the current tick) -/
+structure Ent where
+  id : Nat
+  d : Nat
+  e : Nat
+  deriving Repr, Inhabited, DecidableEq
+
 structure Wheel where
   time : Nat := wheelTime 0
-  /-- wheel[level][slot] = node ids in link order -/
-  wheel : List (List (List Nat)) := nBuckets.map (fun b => List.replicate b [])
-  /-- deadline of every node ever added (on the wheel's time line) -/
-  dl : List (Nat × Nat) := []
-  /-- ghost, for the C13 oracle of the driver only: the time from which the node counts as scheduled, max(deadline,
-      wheel time at Add) — a node added with a deadline already behind the wheel's clock goes to the current tick -/
-  eff : List (Nat × Nat) := []
+  /-- wheel[level][slot] = timer events in link order -/
+  wheel : List (List (List Ent)) := nBuckets.map (fun b => List.replicate b [])
   deriving Repr, Inhabited
 
-def Wheel.deadline (w : Wheel) (n : Nat) : Nat := ((w.dl.find? (·.1 == n)).map (·.2)).getD 0
-def Wheel.effective (w : Wheel) (n : Nat) : Nat := ((w.eff.find? (·.1 == n)).map (·.2)).getD 0
+def Wheel.entries (w : Wheel) : List Ent := (w.wheel.map (fun lv => lv.flatten)).flatten
+
+def Wheel.deadline (w : Wheel) (n : Nat) : Nat := ((w.entries.find? (·.id == n)).map (·.d)).getD 0
+def Wheel.effective (w : Wheel) (n : Nat) : Nat := ((w.entries.find? (·.id == n)).map (·.e)).getD 0
 
 def modifyAt {α} (l : List α) (i : Nat) (f : α → α) : List α :=
   l.zipIdx.map (fun (x, j) => if j == i then f x else x)
 
-def Wheel.bucket (w : Wheel) (lvl slot : Nat) : List Nat := ((w.wheel.getD lvl []).getD slot [])
+def Wheel.bucket (w : Wheel) (lvl slot : Nat) : List Ent := ((w.wheel.getD lvl []).getD slot [])
 
-def Wheel.setBucket (w : Wheel) (lvl slot : Nat) (b : List Nat) : Wheel :=
+def Wheel.setBucket (w : Wheel) (lvl slot : Nat) (b : List Ent) : Wheel :=
   { w with wheel := modifyAt w.wheel lvl (fun lv => modifyAt lv slot (fun _ => b)) }
 
 /-- Add: link the node at the tail of the bucket findBucket chooses -/
 def add (w : Wheel) (n d : Nat) : Wheel :=
-  let (lvl, slot) := findBucket w.time d
-  let w := { w with dl := (n, d) :: w.dl.filter (·.1 != n), eff := (n, max d w.time) :: w.eff.filter (·.1 != n) }
-  w.setBucket lvl slot (w.bucket lvl slot ++ [n])
+  w.setBucket (findBucket w.time d).1 (findBucket w.time d).2
+    (w.bucket (findBucket w.time d).1 (findBucket w.time d).2 ++ [{ id := n, d := d, e := max d w.time }])
 
 /-- Delete: unlink the node wherever it is linked -/
 def delete (w : Wheel) (n : Nat) : Wheel :=
-  { w with wheel := w.wheel.map (fun lv => lv.map (fun b => b.filter (· != n))) }
+  { w with wheel := w.wheel.map (fun lv => lv.map (fun b => b.filter (·.id != n))) }
 
-def isLinked (w : Wheel) (n : Nat) : Bool := w.wheel.any (fun lv => lv.any (fun b => b.contains n))
+def isLinked (w : Wheel) (n : Nat) : Bool := w.wheel.any (fun lv => lv.any (fun b => b.any (·.id == n)))
+
+/-- the per-node step of deleteExpiredFromBucket: expire or re-add -/
+def sweepEnt (acc : Wheel × List Nat) (x : Ent) : Wheel × List Nat :=
+  if x.d < acc.1.time then (acc.1, acc.2 ++ [x.id])      -- expireNode (the cache unlinks it; it is already unlinked here)
+  else (add acc.1 x.id x.d, acc.2)
 
 /-- one bucket of deleteExpiredFromBucket: take the list, reset the bucket, expire or re-add each node -/
 def sweepBucket (w : Wheel) (lvl slot : Nat) : Wheel × List Nat :=
-  let nodes := w.bucket lvl slot
-  let w := w.setBucket lvl slot []
-  nodes.foldl (fun (acc : Wheel × List Nat) n =>
-    let d := acc.1.deadline n
-    if d < acc.1.time then (acc.1, acc.2 ++ [n])      -- expireNode (the cache unlinks it; it is already unlinked here)
-    else (add acc.1 n d, acc.2)) (w, [])
+  (w.bucket lvl slot).foldl sweepEnt (w.setBucket lvl slot [], [])
 
 /-- deleteExpiredFromBucket -/
 def sweepLevel (w : Wheel) (lvl prevTicks delta : Nat) : Wheel × List Nat :=
@@ -80,8 +84,7 @@ def sweepLevel (w : Wheel) (lvl prevTicks delta : Nat) : Wheel × List Nat :=
   let steps := min (delta + 1) b
   let start := prevTicks % b
   (List.range steps).foldl (fun (acc : Wheel × List Nat) k =>
-    let (w', ex) := sweepBucket acc.1 lvl ((start + k) % b)
-    (w', acc.2 ++ ex)) (w, [])
+    ((sweepBucket acc.1 lvl ((start + k) % b)).1, acc.2 ++ (sweepBucket acc.1 lvl ((start + k) % b)).2)) (w, [])
 
 /-- DeleteExpired: levels in order, stop at the first level whose tick did not advance -/
 def deleteExpired (w : Wheel) (now : Nat) : Wheel × List Nat :=
@@ -96,16 +99,14 @@ def deleteExpired (w : Wheel) (now : Nat) : Wheel × List Nat :=
       let ct := now >>> shift i
       let delta := (ct + two64 - pt) % two64
       if delta == 0 then (w, ex)
-      else
-        let (w', e) := sweepLevel w i pt delta
-        go w' (ex ++ e) (i + 1) fuel
+      else go (sweepLevel w i pt delta).1 (ex ++ (sweepLevel w i pt delta).2) (i + 1) fuel
   go w [] 0 5
 
 /-- canonical dump of the non-empty buckets: "lvl:slot:id,id;..." -/
 def dump (w : Wheel) : String :=
   let parts := (w.wheel.zipIdx.map (fun (lv, i) =>
     (lv.zipIdx.filter (fun (b, _) => !b.isEmpty)).map (fun (b, j) =>
-      s!"{i}:{j}:" ++ ",".intercalate (b.map toString)))).flatten
+      s!"{i}:{j}:" ++ ",".intercalate (b.map (fun x => toString x.id))))).flatten
   ";".intercalate parts
 
 end OtterVerif.Impl.Wheel
